@@ -79,7 +79,7 @@ class Run(object):
 
     # ---------------------------------------------------------------- trace validation
     def judge(self, module, traces, tables=None, shards=None, canary_ids=(), describe=None,
-              timeout=3600, cfg_extra='', replay_of=None, xmx='1500m', with_tables=True):
+              timeout=3600, cfg_extra='', replay_of=None, xmx='1500m', with_tables=True, out_of_scope_devs=()):
         """Have TLC judge traces.  canary_ids: ids of deliberately corrupted
         traces that MUST be rejected.  Returns verdicts."""
         verdicts, st = tlcrun.validate(module, traces, tables, shards=shards, timeout=timeout,
@@ -111,6 +111,10 @@ class Run(object):
             if status == 'DEV':
                 if why.startswith('DEV:'):
                     why = why[4:]
+                if why in out_of_scope_devs:
+                    # an input outside this property's quantifier (it belongs to another property's check)
+                    self.notes['outside_quantifier:' + why] = self.notes.get('outside_quantifier:' + why, 0) + 1
+                    continue
                 if self._known_open(why):
                     self.known_hit[why] = self.known_hit.get(why, 0) + 1
                     if 'known:' + why not in self.notes:
